@@ -97,30 +97,30 @@ func (eng *Engine) Load(patterns []string) error {
 	// contract files
 	for path, sp := range eng.ssaPkgs {
 		rel := strings.TrimPrefix(strings.TrimPrefix(path, repoModule), "/")
-		file := filepath.Join(eng.repoDir, rel, "verif_contracts.go")
-		if _, err := os.Stat(file); err != nil {
-			continue
-		}
-		sf, err := ParseSpecFile(file, path)
-		if err != nil {
-			return err
-		}
-		eng.specFiles = append(eng.specFiles, sf)
-		for n, p := range sf.Pures {
-			eng.pures[n] = p
-		}
-		for _, g := range sf.Ghosts {
-			eng.ghosts[g.Name] = g
-		}
-		for _, c := range sf.Contracts {
-			key := c.Key
-			if c.Kind == "func" {
-				key = sp.Pkg.Name() + "." + c.Key
+		files, _ := filepath.Glob(filepath.Join(eng.repoDir, rel, "verif_contracts*.go"))
+		sort.Strings(files)
+		for _, file := range files {
+			sf, err := ParseSpecFile(file, path)
+			if err != nil {
+				return err
 			}
-			if _, dup := eng.contracts[key]; dup {
-				return fmt.Errorf("%s:%d: duplicate contract for %s", c.File, c.Line, key)
+			eng.specFiles = append(eng.specFiles, sf)
+			for n, p := range sf.Pures {
+				eng.pures[n] = p
 			}
-			eng.contracts[key] = c
+			for _, g := range sf.Ghosts {
+				eng.ghosts[g.Name] = g
+			}
+			for _, c := range sf.Contracts {
+				key := c.Key
+				if c.Kind == "func" {
+					key = sp.Pkg.Name() + "." + c.Key
+				}
+				if _, dup := eng.contracts[key]; dup {
+					return fmt.Errorf("%s:%d: duplicate contract for %s", c.File, c.Line, key)
+				}
+				eng.contracts[key] = c
+			}
 		}
 	}
 	// call log keys mentioned by any contract
